@@ -46,7 +46,7 @@ def enumerate_cases(tier, scope):
         ['wait', 1, None, None],
         ['wait', 1, 'msg', {'d': [1]}],
     ]
-    lasts = [['value', 5], ['value', None], ['stop', 7, True], ['stop', 7, False], ['unsuccessful', 3], ['kill', 'bye'], ['kill', None], ['kill', '__nomsg__'], ['raise', 'e']]
+    lasts = [['value', 5], ['value', None], ['value', {'__done_future__': 5}], ['stop', {'__done_future__': 1}, True], ['stop', 7, True], ['stop', 7, False], ['unsuccessful', 3], ['kill', 'bye'], ['kill', None], ['kill', '__nomsg__'], ['raise', 'e']]
     for first in firsts:
         for last in lasts:
             for res in (NOVALUE, 'v', None, 0, False, {'__exc__': 'boom'}, {'__tuple__': []}):
@@ -72,7 +72,7 @@ def _cases(draw, tier):
         if idx == n - 1:
             kind = draw(st.sampled_from(['value', 'stop', 'unsuccessful', 'kill', 'value']))
             if kind == 'value':
-                ret = ['value', draw(st.one_of(st.integers(-1, 3), st.none(), st.sampled_from(['res'])))]
+                ret = ['value', draw(st.one_of(st.integers(-1, 3), st.none(), st.sampled_from(['res']), st.just({'__done_future__': 7})))]
             elif kind == 'stop':
                 ret = ['stop', draw(st.integers(0, 3)), draw(st.booleans())]
             elif kind == 'unsuccessful':
@@ -135,6 +135,12 @@ def model(program, resumes, enter_resumes=None):
 def _norm_value(value):
     from ..programs import dec
 
+    import asyncio
+
+    if isinstance(value, dict) and len(value) == 1 and '__done_future__' in value:
+        return ['<future>', _norm_value(value['__done_future__'])]
+    if isinstance(value, asyncio.Future):
+        return ['<future>', _norm_value(value.result()) if value.done() and not value.cancelled() and value.exception() is None else '<pending>']
     value = dec(value)
     if isinstance(value, BaseException):
         return ['<exception>', type(value).__name__, [repr(a) for a in value.args]]
@@ -156,7 +162,9 @@ def _check_outcome(summary, expected, v, where):
         v('final-state', f"{where}: {summary['state']} expected {expected['state']}")
         return
     if expected['state'] == 'finished':
-        if summary['result'] != expected['result']:
+        got_result = [summary['result'][0], _norm_value(summary['result'][1])] if summary['result'][0] == 'ok' else summary['result']
+        want_result = [expected['result'][0], _norm_value(expected['result'][1])]
+        if summary['result'] != expected['result'] and got_result != want_result:
             v('result', f"{where}: result {summary['result']} expected {expected['result']}")
         if summary['successful'] != expected['successful']:
             v('successful', f"{where}: successful {summary['successful']} expected {expected['successful']}")
@@ -201,6 +209,8 @@ def execute(case):
     n_hook = 0
     if not viol and not enter_resumes:
         for ckpt in ref['checkpoints']:
+            if 'error' in ckpt and ckpt['state'] in ('finished', 'excepted', 'killed'):
+                continue  # a terminal checkpoint is not restored here; whether a result is serialisable is not C13's subject
             if 'error' in ckpt:
                 v('save-failed', f"state entry #{ckpt['index']} ({ckpt['state']}): {ckpt['error']!r}")
                 continue
